@@ -250,6 +250,13 @@ func genC02(g *Rng, tier string, emit func(Op)) {
 			emit(listOp(s.keys, s.trees, new(big.Int).Neg(s.ctx), s.nonce, s.issig, nil, "context-negated", "reject"))
 		}
 		emit(listOp(s.keys, s.trees, s.ctx, s.nonce, !s.issig, nil, "other-session-kind", "reject"))
+		// a lone disclosure proof checked on its own (not as a list): the same session binding
+		if tt, ok := s.trees[0].(T); ok && n == 1 && tt["A"] != nil && tt["nonrev_proof"] == nil {
+			emit(verifyDOp(s.keys[0].id, cloneTree(tt), s.ctx, s.nonce, s.issig, "standalone-own-session", "accept").with("fkey", "C02/standalone"))
+			emit(verifyDOp(s.keys[0].id, cloneTree(tt), s.ctx, s.nonce, !s.issig, "standalone-other-session-kind", "reject").with("fkey", "C02/standalone"))
+			emit(verifyDOp(s.keys[0].id, cloneTree(tt), s.ctx, new(big.Int).Add(s.nonce, bi(1)), s.issig, "standalone-other-nonce", "reject").with("fkey", "C02/standalone"))
+			emit(verifyDOp(s.keys[0].id, cloneTree(tt), new(big.Int).Add(s.ctx, bi(1)), s.nonce, s.issig, "standalone-other-context", "reject").with("fkey", "C02/standalone"))
+		}
 		// a crafted member that nothing binds (its contribution cannot be reconstructed), next to
 		// the genuine proofs of this very session
 		for _, o := range unboundMemberOps(g, s.keys, s.trees, s.ctx, s.nonce, s.issig, "C02/unbound-member") {
